@@ -39,6 +39,10 @@ def build_font(groups):
     ng = 1
     for s, e, g in groups:
         ng = max(ng, min(65535, g + (e - s) + 1))
+    # the glyph count only sizes hmtx; neither ttf-parser's cmap lookup nor get_nominal_glyph compares a
+    # glyph id with it (the face is probed against the cmap spec by the `norm run` request), so keep the
+    # fonts of the "everything but ..." patterns small
+    ng = min(ng, 300)
     maxp = struct.pack(">IH", 0x00005000, ng)
     hmtx = struct.pack(">Hh", 600, 0) + b"\0\0" * (ng - 1)
     sub = struct.pack(">HHIII", 12, 0, 16 + 12 * len(groups), 0, len(groups))
@@ -280,12 +284,12 @@ def rand_support(r, text, U):
                     extra.append(c)
     rel += [c for c in extra if c not in rel]
     rel += [0x20, 0x2010]
-    k = r.below(8)
-    if k == 0:
+    k = r.below(9)
+    if k in (0, 8):
         return groups_all_but([])
     if k == 1:
-        return []
-    p = r.choice([1, 2, 3])
+        return [] if r.chance(1, 3) else groups_all_but([c for c in rel if r.chance(1, 6)])
+    p = r.choice([1, 2, 3, 3])
     chosen = [c for c in rel if r.below(4) < p]
     if k < 5:
         return groups_all_but([c for c in rel if c not in chosen])
@@ -351,7 +355,7 @@ def classify_run(ln, out):
     return ks
 
 
-def prim_lines(U, r, n):
+def prim_lines(U, r, n, full=False):
     lines = []
     # every row of both tables, Hangul borders, and random pairs
     for c in sorted(U.decomp):
@@ -365,6 +369,10 @@ def prim_lines(U, r, n):
     for a in [L - 1, L, L + LC - 1, L + LC, S, S + TC, S + SC - TC, S + SC - 1, S + 1]:
         for b in [V - 1, V, V + VC - 1, V + VC, T - 1, T, T + 1, T + TC - 1, T + TC]:
             lines.append(f"norm compose {a} {b}")
+    # decomposition chain depth over the whole code space (the model's recursion budget must suffice)
+    step = 0x2000 if full else 0x110000
+    for lo in (range(0, 0x110000, step) if full else [0, 0xAC00, 0x1D100, 0x2F800]):
+        lines.append(f"norm depth {lo} {min(lo + (step if full else 0x2FFF), 0x110000) - 1}")
     P = pools(U)
     for _ in range(n):
         k = r.below(4)
@@ -663,6 +671,30 @@ def search_reorder(ctx, shim, U, r, per_combo, cross):
                          "modified class is 0 are excluded")
 
 
+def search_cap(ctx, shim):
+    """runs of up to 32 marks are canonically ordered, longer runs are left alone (MAX_COMBINING_MARKS)"""
+    g = groups_from_set([0x61, 0x301, 0x323, 0x62])
+    lines = [f"font c {build_font(g).hex()}"]
+    texts = []
+    for n in range(1, 41):
+        for pat in ([0x301, 0x323], [0x301, 0x301, 0x323]):
+            t = [0x61] + [pat[i % len(pat)] for i in range(n)] + [0x62]
+            texts.append((n, t))
+            lines.append(shape_line("c", t))
+    o = vlib.run_groups(shim, [lines], nproc=1)[0]
+    for (n, t), out, ln in zip(texts, o[1:], lines[1:]):
+        marks = t[1:-1]
+        expect = [0x61] + (sorted(marks, key=lambda c: unicodedata.combining(chr(c))) if n <= 32 else marks) + [0x62]
+        want = [glyph_of(g, c) for c in expect]
+        if parse_shape(out) != want:
+            ctx.violation(f"run of {n} marks: expected {'canonical order' if n <= 32 else 'unchanged order'}",
+                          {"stage": "search", "stream": "cap", "font_line": lines[0], "request": ln,
+                           "expected_glyphs": want, "observed": out})
+    ctx.note_search("cap", len(texts), len(texts),
+                    rule="a + n marks alternating U+0301 (230) / U+0323 (220) + b for n = 1..40: stable canonical order "
+                         "expected for n <= 32, unchanged order beyond (the documented cap)")
+
+
 KNOWN = [
     {"id": "C09-comp-non-starter-pairs", "status": "known", "property": "C09",
      "signature": {"finding": "comp-non-starter-pairs"},
@@ -719,23 +751,48 @@ def run(ctx):
     ctx.prove(MODULE)
     shim = vlib.build_harness()
     U = UData(shim)
-    ctx.correspond("norm-prims", lines=prim_lines(U, ctx.rng("prims"), ctx.budget(4000, 100000)),
-                   classify=lambda ln, out: [ln.split()[1] + (":none" if out == "-" else "")])
-    ctx.correspond("norm-run", lines=gen_run_lines(ctx.rng("run"), ctx.budget(6000, 150000), U), classify=classify_run)
+    ctx.correspond("norm-prims", lines=prim_lines(U, ctx.rng("prims"), ctx.budget(4000, 100000), full=not ctx.quick),
+                   classify=lambda ln, out: [ln.split()[1] + (":none" if out == "-" else "") +
+                                             (":" + out if ln.split()[1] == "depth" else "")])
+    ctx.correspond("norm-run", lines=gen_run_lines(ctx.rng("run"), ctx.budget(30000, 400000), U), classify=classify_run)
     RD, RC = ref_tables()
     replay_known(ctx, shim)
-    search_reorder(ctx, shim, U, ctx.rng("reorder"), ctx.budget(2, None), ctx.budget(6, None))
-    search_singles(ctx, shim, U, RD, ctx.budget(5, 1))
-    search_strings(ctx, shim, U, RD, RC, ctx.rng("strings"), ctx.budget(40, 10 ** 6), ctx.budget(1, 2),
-                   ctx.budget(20, 60))
+    search_cap(ctx, shim)
+    search_reorder(ctx, shim, U, ctx.rng("reorder"), ctx.budget(3, None), ctx.budget(8, None))
+    search_singles(ctx, shim, U, RD, ctx.budget(2, 1))
+    search_strings(ctx, shim, U, RD, RC, ctx.rng("strings"), ctx.budget(100, 10 ** 6), ctx.budget(1, 2),
+                   ctx.budget(40, 120))
 
 
 def replay(ctx, rp):
     shim = vlib.build_harness()
+    if rp.get("stream") == "reorder":
+        o = vlib.run_groups(shim, [[rp["font_line"], rp["request"], rp["request2"]]], nproc=1)[0]
+        print("order 1:", o[1]); print("order 2:", o[2])
+        return 0 if parse_shape(o[1]) == parse_shape(o[2]) and parse_shape(o[1]) is not None else 1
+    if "font_line" in rp and "expected_glyphs" in rp:
+        o = vlib.run_groups(shim, [[rp["font_line"], rp["request"]]], nproc=1)[0]
+        print("observed:", o[1]); print("expected glyphs:", rp["expected_glyphs"])
+        return 0 if parse_shape(o[1]) == rp["expected_glyphs"] else 1
+    if rp.get("stream") == "known":
+        reqs = rp.get("requests") or [rp["request"]]
+        outs = vlib.run_lines(shim, reqs, nproc=1)
+        for q, o in zip(reqs, outs):
+            print(q, "->", o)
+        return 1 if any(o != "-" for o in outs) else 0
     if "request" in rp:
         model = vlib.build_model()
         a = vlib.run_lines(shim, [rp["request"]], nproc=1)[0]
         b = vlib.run_lines(model, [rp["request"]], nproc=1)[0]
         print("impl :", a); print("model:", b)
         return 0 if a == b else 1
-    print(rp); return 1
+    for b in rp.get("broken", []):
+        for d in b.get("smallest", [])[:3]:
+            model = vlib.build_model()
+            a = vlib.run_lines(shim, [d["request"]], nproc=1)[0]
+            m = vlib.run_lines(model, [d["request"]], nproc=1)[0]
+            print("request:", d["request"][:200]); print("impl :", a); print("model:", m)
+            if a != m:
+                return 1
+    print({k: v for k, v in rp.items() if k != "broken"})
+    return 1 if rp.get("broken") else 0
